@@ -6,16 +6,24 @@
 (* transition replaces one member by a new point with a new energy (what a *)
 (* DE selection or a simplex update does), so every population of the      *)
 (* bounded shape is reachable and emitted once with the expected verdicts. *)
+(* `scale` is the unit of the model: a coordinate x stands for x * 2^scale,  *)
+(* an energy e for e * 2^scale, and so do the absolute tolerances (xtol and  *)
+(* ftol of CandidateRelativeTolerance, the tolerance of                      *)
+(* SolutionImprovement); the tolerance of PopulationSpread is relative.      *)
+(* The inequalities are homogeneous (invariant PopHomogeneous: twice the     *)
+(* population, twice the absolute tolerances, same verdicts), which lets the *)
+(* small-integer model speak about 1e-300, 1e-9, 1e10.                       *)
 (***************************************************************************)
 EXTENDS Termination, TLC, Json, SequencesExt
 
 CONSTANTS Coords,     \* coordinate values
           PEnergies,  \* member energies (may contain INF)
           Shapes,     \* set of <<npop, ndim>>
-          PTols       \* tolerances <<n,d>>
+          PTols,      \* tolerances <<n,d>>
+          PScales     \* units: exponents s, the unit is 2^s
 
-VARIABLES pop, popE, trialIsPop
-vars == <<pop, popE, trialIsPop>>
+VARIABLES pop, popE, trialIsPop, scale
+vars == <<pop, popE, trialIsPop, scale>>
 
 Vec(d) == [1..d -> Coords]
 
@@ -23,10 +31,11 @@ Init == \E s \in Shapes :
           /\ pop \in [1..s[1] -> Vec(s[2])]
           /\ popE \in [1..s[1] -> PEnergies]
           /\ trialIsPop \in BOOLEAN
+          /\ scale \in PScales
 
 Replace(i, x, e) == /\ pop' = [pop EXCEPT ![i] = x]
                     /\ popE' = [popE EXCEPT ![i] = e]
-                    /\ UNCHANGED trialIsPop
+                    /\ UNCHANGED <<trialIsPop, scale>>
 Next == \E i \in 1..Len(pop) : \E x \in Vec(Len(pop[1])) : \E e \in PEnergies : Replace(i, x, e)
 Spec == Init /\ [][Next]_vars
 
@@ -48,6 +57,19 @@ IdenticalPopulationConverged ==
      => \A a \in 1..Len(TolSeq) : /\ (Len(pop) >= 2 => CandidateRelativeTolerance(pop, popE, TolSeq[a], TolSeq[a]))
                                   /\ PopulationSpread(pop, TolSeq[a])
 
+(* the unit does not matter *)
+Dbl(v) == IF v = INF THEN INF ELSE 2 * v
+Pop2 == [i \in DOMAIN pop |-> [j \in DOMAIN pop[i] |-> 2 * pop[i][j]]]
+PopE2 == [i \in DOMAIN popE |-> Dbl(popE[i])]
+T2(t) == <<2 * t[1], t[2]>>
+PopHomogeneous ==
+  \A a, b \in 1..Len(TolSeq) :
+     /\ CandidateRelativeTolerance(pop, popE, TolSeq[a], TolSeq[b])
+          <=> CandidateRelativeTolerance(Pop2, PopE2, T2(TolSeq[a]), T2(TolSeq[b]))
+     /\ PopulationSpread(pop, TolSeq[a]) <=> PopulationSpread(Pop2, TolSeq[a])
+     /\ SolutionImprovement(Best, Trial, trialIsPop, TolSeq[a])
+          <=> SolutionImprovement(Pop2[1], IF trialIsPop THEN Pop2 ELSE Pop2[Len(pop)], trialIsPop, T2(TolSeq[a]))
+
 ASSUME PrintT(<<"@@", ToJson([tols |-> TolSeq])>>)
-Emit == PrintT(<<"@@", ToJson([pop |-> pop, popE |-> popE, tp |-> trialIsPop, v |-> Verdicts])>>)
+Emit == PrintT(<<"@@", ToJson([pop |-> pop, popE |-> popE, tp |-> trialIsPop, scale |-> scale, v |-> Verdicts])>>)
 =============================================================================
